@@ -220,22 +220,33 @@ def replay (qs : List (List Rat)) (fin : List Rat × Rat) : Opt := fun _ _ _ h =
     bounds of the others can be off by one rounding of `exp(log b)`) -/
 def geTol (tol v b : Rat) : Bool := decide (b ≤ v + tol * ratMax (ratAbs b) (ratAbs v))
 
+def geOpt (tol x : Rat) : Option Rat → Bool
+  | none => true
+  | some b => geTol tol x b
+
+def leOpt (tol x : Rat) : Option Rat → Bool
+  | none => true
+  | some b => geTol tol b x
+
 def aboveAll (tol : Rat) (v : List Rat) : Option Bounds → Bool
   | none => true
-  | some bs => (List.zipWith (fun x b => match b with | none => true | some b => geTol tol x b) v bs).all id
+  | some bs => (List.zipWith (geOpt tol) v bs).all id
 
 def belowAll (tol : Rat) (v : List Rat) : Option Bounds → Bool
   | none => true
-  | some bs => (List.zipWith (fun x b => match b with | none => true | some b => geTol tol b x) v bs).all id
+  | some bs => (List.zipWith (leOpt tol) v bs).all id
 
 def inBox (tol : Rat) (pb : Problem) (v : List Rat) : Bool := aboveAll tol v pb.lower && belowAll tol v pb.upper
 
 /-- the vector carries every fixed value (and has the full length) -/
+def eqOpt (x : Rat) : Option Rat → Bool
+  | none => true
+  | some c => x == c
+
 def fixedOk (fixed : Option Fixed) (v : List Rat) : Bool :=
   match fixed with
   | none => true
-  | some fx => v.length == fx.length &&
-      (List.zipWith (fun x f => match f with | none => true | some c => x == c) v fx).all id
+  | some fx => v.length == fx.length && (List.zipWith eqOpt v fx).all id
 
 /-- the user's starting point: `p0` with the fixed values written over the corresponding entries -/
 def startFull (pb : Problem) : List Rat := projectUpO (projectDownO pb.p0 pb.fixed) pb.fixed
